@@ -4,6 +4,8 @@
 import PowHsm.Spec.C11
 import PowHsm.Proofs.Monad
 import PowHsm.Proofs.Emits
+import PowHsm.Proofs.ConformMgr
+import PowHsm.Props.C03
 namespace PowHsm
 namespace Props.C11
 open Ledger Comm Spec Dongle M
@@ -155,6 +157,40 @@ theorem repair_precedes_command {α : Type} (k : M α) (w : World) (hi : w.commI
       refine ⟨rfl, ?_, ?_⟩ <;>
       · rw [M.bind_apply, hens]
         simp [M.tryCatchIf, M.bind_apply, hini, setCommIssue, modifyWorld]
+
+/-! ### link failures at any exchange never stop the manager -/
+
+/-- a link fault (time-out, write error, read error) is admitted as the outcome of any exchange -/
+theorem link_fault_admitted (apdu : Bytes) (r : Resp) (h : isFault r = true) : respOk true apdu r = true := by
+  simp [respOk, h]
+
+/-- **for every command and every point of its device exchange at which the link may fail, the
+    manager keeps running and the client gets an answer**: with no repair pending, for every
+    request line (any JSON value, any command, both protocol modes) and every script in which each
+    exchange is either answered as the device protocol allows or ends in a time-out, a write error
+    or a read error — at any position, any number of times — the line is answered with a JSON
+    object holding an integer errorcode, no exception leaves the handler and no shutdown is
+    requested.  (That the code is the device-error code, and that the repair flag is raised exactly
+    for write / read errors, are `guard_comm`, `guard_timeout` and `device_code_reply` above, composed
+    per handler by the correspondence streams.) -/
+theorem link_faults_never_stop (m : Mode) (hs : Dongle.Hashes) (p : Parsed) (w : World)
+    (hci : w.commIssue = false) (hb : ParsedBounded p)
+    (hok : deviceOk true w.script (handleLine m hs p w).evs = true) :
+    ∃ lo, (handleLine m hs p w).val = .ok lo ∧ lo.exc = none ∧ isReply lo.reply = true ∧
+      lo.shutdown = false := by
+  obtain ⟨_, lo, h2, h3⟩ := handleLine_top (lf := true) m hs p (fun r => isReply r = true)
+    (Props.C03.handleRequest_reply_wellformed m hs) (Props.C03.isReply_errReply _) hb w hci hok
+  exact ⟨lo, h2, h3.1, h3.2.1, h3.2.2⟩
+
+/-- non-vacuity: a `getPubKey` whose only exchange ends in a read error is admitted, and answered -/
+example :
+    let w : World := { script := [.readErr] }
+    let req : Json := .obj [("command", .str "getPubKey"), ("version", .int 5), ("keyId", .str "m/44'/0'/0'/0/0")]
+    let hs : Dongle.Hashes := { keccak := id, cbHash := id }
+    deviceOk true w.script (handleLine .v5 hs (.ok req) w).evs = true ∧
+      (handleLine .v5 hs (.ok req) w).evs.length = 1 ∧
+      deviceConforms w.script (handleLine .v5 hs (.ok req) w).evs = false := by
+  decide
 
 end Props.C11
 end PowHsm
